@@ -256,6 +256,9 @@ def bounded(rep):
         n += 1
     for res in R.model_pairs():
         rep.add_bounded(f"{P}/bounded.model_isotherm_pairs/{res['name']}", res['ok'], res['detail'], replay={'kind': 'c04.modelpair', 'name': res['name']})
+    for res in R.first_in_process_cases():
+        rep.add_bounded(f"{P}/bounded.{res['name']}", res['ok'], res['detail'], replay={'kind': 'c04.first', 'name': res['name']})
+        n += 1
     for res in R.process_state_cases():
         rep.add_bounded(f"{P}/bounded.{res['name']}", res['ok'], res['detail'], replay={'kind': 'c04.process_state', 'name': res['name']})
         n += 1
